@@ -343,9 +343,9 @@ def load (toks : List String) : Option Loaded := do
   let (sx, rest) ← parseSx toks
   if !rest.isEmpty then none
   let (sp, names) ← (pProgram sx).run {}
-  let (tname, names) := names.intern "t"
+  let (names, tname) := names.intern "t"
   let (fnames, names) := ffiNames.foldl (fun (acc : List Nat × Names) s =>
-    let (n', i) := acc.2.intern s; (acc.1 ++ [i], n')) ([], names)
+    let (n', i) := acc.2.intern s; (acc.1 ++ [i], n')) (([] : List Nat), names)
   let sigs : List FfiSig := match fnames with
     | [a, b, c, d] => [⟨a, [.int], .int⟩, ⟨b, [.int, .bool], .bool⟩, ⟨c, [.int], .int⟩, ⟨d, [.int], .optional .int⟩]
     | _ => []
